@@ -1093,12 +1093,16 @@ pub fn run(ctx: &Ctx, st: &mut Stats) {
     RANDOM.run_random(ctx, st, n, arb_history);
     let n = states_end();
     st.extra.insert("states_random".into(), serde_json::json!({"distinct": n, "capped": n as usize >= RANDOM_STATES_CAP}));
+
+    // end to end: job-control built-ins of a real shell on the simulated OS
+    super::c12b::run(ctx, st);
 }
 
 pub fn replay(driver: &str, case: &serde_json::Value) -> Result<(Outcome, Option<&'static str>), String> {
     match driver {
         "exhaustive" => EXHAUSTIVE.replay_known(case),
         "random" => RANDOM.replay_known(case),
+        "jobctl" => super::c12b::JOBCTL.replay_known(case),
         _ => Err(format!("unknown driver {driver}")),
     }
 }
